@@ -216,7 +216,7 @@ RetBad(e) ==
      THEN \* early return: the state must be the one of the last condition evaluation, which was true
           (IF lastObs.k >= 0 /\ lastObs.cond /\ lastObs.O = O THEN {} ELSE {[prop |-> "C07", what |-> "close_until returned true in a state where the condition was not evaluated to true"]})
           \cup (IF chase.done THEN { [prop |-> "C07", what |-> "at an early return: " \o w] : w \in SoundBad(chase.nf, O, P) } ELSE {})
-     ELSE (IF lastObs.k >= 0 /\ ~lastObs.cond /\ lastObs.O = O THEN {} ELSE {[prop |-> "C07", what |-> "close_until returned false although the condition held / state changed after the last evaluation"]})
+     ELSE (IF e.raw \/ (lastObs.k >= 0 /\ ~lastObs.cond /\ lastObs.O = O) THEN {} ELSE {[prop |-> "C07", what |-> "close_until returned false although the condition held / state changed after the last evaluation"]})
           \cup { [prop |-> "C01", what |-> "closed model violates stage " \o ToString(u[1]) \o " (" \o u[2] \o ")"] : u \in Unsatisfied(O) }
           \cup (IF chase.done THEN { [prop |-> "C01", what |-> w] : w \in CompleteBad(chase.nf, O, P) } ELSE {})
           \cup (IF chase.done THEN { [prop |-> "C02", what |-> w] : w \in SoundBad(chase.nf, O, P) } ELSE {})
